@@ -305,16 +305,16 @@ def fn_verdict(c, io, mf):
     f = fields_of(io)
     if "mtried" not in mf:
         return ("broken", "driver:fn", "driver rejected the case: %s" % mf)
-    if mf.get("exact") != "ok":
-        return ("skip", "c02-inexact-lists", "")
     if c.get("check", "1") == "1" and (f.get("fin") == "0" or (mf.get("sc") == "0" and mf.get("uni") == "1")):
         return ("fail", "conn-dir:fn", "find_neighbors(.., check_connectivity=true) returns a %s-neighbour graph that it reports as "
-                "connected, but compute_shortest_distances_matrix on it has unreachable pairs (infinite geodesics)" % f.get("tried", "").split(",")[-1])
+                "connected, but compute_shortest_distances_matrix on it has unreachable pairs (infinite geodesics)" % f.get("kfinal", "?"))
+    if mf.get("exact") != "ok":
+        return ("skip", "c02-inexact-lists", "")
     if mf["mtried"] in ("oob", "fuel"):
         return ("broken", "corr:fn-model-" + mf["mtried"], "model recursion ends in %s on lists the implementation survived" % mf["mtried"])
     if mf.get("same") != "1":
-        return ("broken", "corr:find_neighbors", "recursion of find_neighbors: model tried k=%s (final %s), implementation tried k=%s"
-                % (mf.get("mtried"), mf.get("mk"), f.get("tried")))
+        return ("broken", "corr:find_neighbors", "recursion of find_neighbors: model tried k=%s (final %s), implementation returned "
+                "lists of k=%s (or different lists for that k)" % (mf.get("mtried"), mf.get("mk"), f.get("kfinal")))
     if f.get("fin") in ("0", "1") and f["fin"] != mf.get("sc"):
         return ("broken", "corr:dijkstra-vs-stronglyConnected", "finiteness of geodesics (%s) differs from stronglyConnected (%s)"
                 % (f["fin"], mf.get("sc")))
@@ -362,7 +362,7 @@ def run_fn(ctx, binary, cases):
             dl.append(l)
         else:
             f = fields_of(io)
-            dl.append(l + " ids=%s tried=%s levels=%s" % (f.get("ids", ""), f.get("tried", ""), f.get("levels", "")))
+            dl.append(l + " ids=%s kfinal=%s levels=%s" % (f.get("ids", ""), f.get("kfinal", ""), f.get("levels", "")))
     rc, model, err = ctx.run_model("model_c03", dl, timeout=3000)
     if rc != 0 or len(model) != len(lines):
         ctx.broken("model-driver", "model_c03", "model driver failed: rc=%s %s" % (rc, err[-300:]))
@@ -410,13 +410,13 @@ def judge_fn(ctx, binary, groups, label):
             ctx.cov["traces_validated_against_impl"] += 1
             v = fn_verdict(c, io, mf)
             f = fields_of(io) if not io.startswith("abort:") else {}
-            tried = f.get("tried", "")
-            if "," in tried:
+            tried = f.get("kfinal", "")
+            if tried and tried.isdigit() and int(tried) > min(int(c["k"]), n - 1):
                 ctx.stat("fn:k-was-raised")
             if v is None:
                 ctx.stat("fn:agree")
-                finals.append((tried.split(",")[-1], f.get("fin"), c, line))
-                if len(ctx.cov["samples"]) < 4 and n <= 8 and "," in tried:
+                finals.append((tried, f.get("fin"), c, line))
+                if len(ctx.cov["samples"]) < 4 and n <= 8 and tried.isdigit() and int(tried) > min(int(c["k"]), n - 1):
                     ctx.sample({"case": line, "impl": io[:600], "driver": mraw})
                 continue
             kind, sig, text = v
@@ -427,7 +427,7 @@ def judge_fn(ctx, binary, groups, label):
             report(ctx, kind, sig, text, line, {"impl": io[:3000], "driver": mraw[:2000]},
                    broken="correspondence c03_conn (%s)" % sig,
                    shrinker=(lambda cc=cc, sig=sig: G.case_line("fn", shrink_fn(ctx, binary, cc, sig))) if kind == "fail" else None)
-            finals.append((tried.split(",")[-1], f.get("fin"), c, line))
+            finals.append((tried, f.get("fin"), c, line))
         if grp and grp[0].get("_tiefree"):
             ks = {(k, fin) for k, fin, _, _ in finals}
             if len(ks) > 1:
@@ -461,7 +461,7 @@ def shrink_pair(ctx, binary, ca, cb):
         if not res or any(x[1].startswith("abort:") for x in res):
             return False
         fa, fb = fields_of(res[0][1]), fields_of(res[1][1])
-        return (fa.get("tried", "").split(",")[-1], fa.get("fin")) != (fb.get("tried", "").split(",")[-1], fb.get("fin"))
+        return (fa.get("kfinal"), fa.get("fin")) != (fb.get("kfinal"), fb.get("fin"))
     best = vlib.ddmin(base_ids, differs, max_tests=100)
     a, b = build(best)
     return G.case_line("fn", a) + " || " + G.case_line("fn", b)
